@@ -17,19 +17,32 @@ THEOREMS = [
     # names-level half: segment numbers as name components (composition with the name model, C09)
     'Ndn.C19.segment_component_roundtrip', 'Ndn.C19.segComp_is_rep', 'Ndn.C19.final_block_id_names_segment_iff',
     'Ndn.C19.fetchB_refines', 'Ndn.C19.fetchB_refines_unsegmented', 'Ndn.C19.fetch_yields_all_once_in_order_names',
+    # timed half: the generator over the pending-Interest table (C03 model), answers that take time - every delay pattern
+    'Ndn.C19.timed_interest_outcome', 'Ndn.C19.timed_data_is_genuine', 'Ndn.C19.timed_yields_in_order',
+    'Ndn.C19.timed_unsegmented', 'Ndn.C19.timed_yields_all_once_in_order', 'Ndn.C19.timed_timeout_iff',
+    'Ndn.C19.timed_propagates', 'Ndn.C19.timed_requests_bounded', 'Ndn.C19.timed_terminates',
+    'Ndn.C19.timed_refines_untimed', 'Ndn.C19.timed_tolerable_yields_all', 'Ndn.C19.timed_table_clean_at_end',
 ]
 PARTIAL = {}
 TRUSTED = [
-    'C19: one Interest outstanding at a time (the generator is sequential); a response is either delivered at once or '
-    'never (no late Data after a timeout); asyncio wait_for / async-generator semantics are exercised only by the '
-    'correspondence (virtual-time loop)',
+    'C19: one Interest outstanding at a time (the generator is sequential); time is discrete (ms), answers reach the consumer '
+    'in the order of their arrival times (first sent first among equals), and when an arrival and a deadline fall on the same '
+    'instant the timer runs first (the order in which the harness\'s virtual-time loop runs them; C03 proves its theorems for '
+    'both orders of such ties); asyncio wait_for / async-generator semantics are exercised only by the correspondence '
+    '(virtual-time loop)',
     'C19: packets enter the model after decoding (the Interest/Data codec is C01/C07), as names = lists of encoded '
     'components: the names-level model builds every Interest name itself (last component of the last Data name replaced by '
     'Component.from_segment(n)), reads get_type / to_number of the last component and compares FinalBlockId with it as bytes; '
     'it is proved equal, Interest by Interest, to the number-level model for objects of fewer than 2^64 - 2 segments whose '
     'producer names segment i `base ++ [from_segment(i)]` and marks the final block with a segment component',
-    'C19: legacy NDNApp.express_interest is modelled by its four outcomes per Interest (Data, InterestTimeout, '
-    'InterestNack, ValidationFailure); its PIT bookkeeping is property C03',
+    'C19: the timed model runs the generator over the C03 model of the legacy pending-Interest table (Ndn.Pit, front-end v1: '
+    'express / Data / Nack / tick events; its correspondence with app.py is property C03\'s check); the untimed models '
+    'abstract express_interest to four outcomes per Interest and are proved equal to the timed one when every answer '
+    'arrives within the lifetime of its own Interest (timed_refines_untimed)',
+    'C19: the validator\'s verdict is a function of the Data packet (the harness checks the DigestSha256 signature; an invalid '
+    'Data is one whose signature value was damaged): the table is run with verdict `pass` and the model\'s retry raises '
+    'ValidationFailure for a Data whose identifier says so - the legacy validator runs in the express task after the entry '
+    'has left the table (C03), so the table state does not depend on the verdict',
 ]
 RULE = ('objects: unsegmented (Data named exactly the prefix / with a version / with a generic component) or 0..12 segments '
         'with FinalBlockId on every segment / only the last / none / naming an earlier segment / naming other numbers / '
@@ -38,7 +51,13 @@ RULE = ('objects: unsegmented (Data named exactly the prefix / with a version / 
         'random scripts; every Interest name the simulated producer sees is compared byte for byte with the name the '
         'names-level model builds; a targeted stream: 255..520 segments (2-byte segment numbers, FinalBlockId on 254..257), '
         'every Nack reason (which must propagate too), the prefix given as str / list / wire, and - oracle only - segments with '
-        'empty or absent Content and FinalBlockId components of another type; non-trivial = at least two Interests were sent and something was yielded or a retry happened; '
+        'empty or absent Content and FinalBlockId components of another type; a delayed stream: every scripted answer travels '
+        'for a scripted number of ms (0, 1, a fraction of the lifetime, lifetime-1, exactly the lifetime, lifetime+1, up to 3 '
+        'lifetimes; lifetimes 0/50/125/250/1000/4000 ms) - a late Data of attempt n-1 landing during attempt n, a late discovery '
+        'Data landing on a segment Interest, late Nacks / invalid Data, every attempt answered just too late, answers arriving '
+        'after the end (they must be dropped quietly) - and the Interests seen by the simulated producer WITH THEIR SEND TIMES '
+        'are compared with the timed model; cases whose answers all arrive within the lifetime are put to the untimed models '
+        'as well (all three must agree); non-trivial = at least two Interests were sent and something was yielded or a retry happened; '
         'distinct = distinct (object, discovery, limit, script)')
 
 PREFIX = '/obj'
@@ -152,8 +171,91 @@ def _oracle_only(case):
     return bool(o.get('content') or o.get('fbi_type'))
 
 
+def _delay(rng, T, o):
+    """how long an answer travels: mostly well below the lifetime, often around it (just below / exactly / just above),
+    sometimes a multiple of it"""
+    if o == 't':
+        return 0
+    r = rng.random()
+    if r < 0.4:
+        return rng.choice([0, 0, 1, T // 4, T // 2])
+    if r < 0.55:
+        return max(0, T - 1)
+    if r < 0.7:
+        return T
+    if r < 0.8:
+        return T + 1
+    if r < 0.9:
+        return T + rng.choice([T // 4, T // 2, T - 1])
+    return rng.choice([2 * T, 2 * T + 1, 3 * T, 3 * T - 1, 2 * T + T // 2])
+
+
+def _delayed_targeted(rng, tier):
+    """answers that take time: the late Data of attempt n-1 landing during attempt n (it satisfies the retry: same name),
+    delays below / at / above the lifetime, a late discovery Data satisfying a segment Interest, late Nacks and late invalid
+    Data, answers that arrive when the fetch is over"""
+    base = {'disc': 0, 'retry': 3, 'timeout_ms': 1000, 'fresh': True}
+    seg3 = {'kind': 'seg', 'fbi': [None, None, 2]}
+    for T in (1000, 125, 50, 4000):
+        b = dict(base, timeout_ms=T)
+        for d in (0, 1, T // 2, T - 1, T, T + 1, T + T // 2, 2 * T - 1, 2 * T, 2 * T + 1, 3 * T):
+            # one late answer for the discovery Interest / for segment 1, then silence for the retry
+            yield dict(b, obj=seg3, script='dt', delays=[d, 0])
+            yield dict(b, obj=seg3, script='ddt', delays=[0, d, 0])
+            yield dict(b, obj=seg3, script='ddtt', delays=[0, d, 0, 0], retry=2)
+            yield dict(b, obj=seg3, script='ddd', delays=[0, d, d])
+            yield dict(b, obj={'kind': 'unseg', 'name': 'version'}, script='dt', delays=[d, 0])
+            yield dict(b, obj=seg3, script='dnt', delays=[0, d, 0], nack=rng.choice(NACK_REASONS))
+            yield dict(b, obj=seg3, script='dvt', delays=[0, d, 0])
+            yield dict(b, obj=seg3, script='dttd', delays=[0, 0, 0, d], retry=2)
+            yield dict(b, obj=seg3, script='d', delays=[d], retry=1)
+            yield dict(b, obj=seg3, script='d', delays=[d], retry=0)
+            # the late discovery Data (segment 2) arrives while segment 2 is being fetched
+            yield dict(b, obj=seg3, disc=2, script='dd', delays=[T + d, 0])
+            yield dict(b, obj=seg3, disc=1, script='dtdt', delays=[T + d, 0, 0, 0])
+            # attempt 1 answered late, attempt 2 answered as well: the second copy is dropped (or satisfies nothing)
+            yield dict(b, obj=seg3, script='ddd', delays=[0, T + d, d])
+            yield dict(b, obj={'kind': 'seg', 'fbi': [0]}, script='d', delays=[d])
+    # every attempt of one request answered just too late
+    for k in (1, 2, 3):
+        yield dict(base, obj=seg3, retry=k, script='d' + 'd' * k, delays=[0] + [1000] * k)
+        yield dict(base, obj=seg3, retry=k, script='d' + 'd' * k, delays=[0] + [999] * k)
+        yield dict(base, obj=seg3, retry=k, script='d' + 'd' * k + 'd', delays=[0] + [1001] * k + [0])
+    yield dict(base, timeout_ms=0, obj=seg3, script='d', delays=[0])
+    yield dict(base, timeout_ms=0, obj=seg3, script='', retry=1)
+
+
+def _delayed(rng, tier):
+    n = 1500 if tier == 'quick' else 40000
+    for _ in range(n):
+        retry = rng.choice([0, 1, 2, 3, 3, 4])
+        a = max(1, retry)
+        T = rng.choice([1000, 1000, 125, 50, 4000, 250])
+        if rng.random() < 0.1:
+            obj = {'kind': 'unseg', 'name': rng.choice(['exact', 'version', 'generic'])}
+            nreq, disc = 1, 0
+        else:
+            nseg = rng.choice([1, 1, 2, 2, 3, 3, 4, 5, 6])
+            obj = {'kind': 'seg', 'fbi': _fbis(rng, nseg)}
+            r = rng.random()
+            disc = 0 if r < 0.3 else nseg - 1 if r < 0.45 else rng.randrange(nseg) if r < 0.95 else nseg
+            nreq = nseg + 2
+        if rng.random() < 0.5:
+            script = _script(rng, nreq, a)
+            script += 'd' * rng.randint(0, 3)
+        else:
+            script = ''.join(rng.choice('ddddddtnv' if rng.random() < 0.2 else 'dddddt') for _ in range(rng.randint(1, 2 * nreq + 2)))
+        case = {'obj': obj, 'disc': disc, 'retry': retry, 'script': script, 'timeout_ms': T, 'fresh': rng.random() < 0.5,
+                'delays': [_delay(rng, T, o) for o in script]}
+        if rng.random() < 0.3:
+            case['nack'] = rng.choice(NACK_REASONS)
+        yield case
+
+
 def cases(rng, tier):
     yield from _targeted(rng, tier)
+    yield from _delayed_targeted(rng, tier)
+    yield from _delayed(rng, tier)
     n = 2000 if tier == 'quick' else 60000
     for _ in range(n):
         retry = rng.choice([0, 1, 2, 3, 3, 4])
@@ -180,8 +282,20 @@ def cases(rng, tier):
 
 def shrink(case):
     s = case['script']
-    for i in range(len(s)):
-        yield dict(case, script=s[:i] + s[i + 1:])
+    if case.get('delays'):
+        dl = _delays(case)
+        for i in range(len(s)):
+            yield dict(case, script=s[:i] + s[i + 1:], delays=dl[:i] + dl[i + 1:])
+        if not any(dl):
+            yield {a: b for a, b in case.items() if a != 'delays'}
+        T = case['timeout_ms']
+        for i, d in enumerate(dl):
+            for d2 in (0, T - 1, T, T + 1, d // 2):
+                if 0 <= d2 < d:
+                    yield dict(case, delays=dl[:i] + [d2] + dl[i + 1:])
+    else:
+        for i in range(len(s)):
+            yield dict(case, script=s[:i] + s[i + 1:])
     o = case['obj']
     if o['kind'] == 'seg':
         f = o['fbi']
@@ -207,19 +321,27 @@ def shrink(case):
 
 
 # -------------------------------------------------------------------------------- implementation
+def _delays(case):
+    d = list(case.get('delays') or [])
+    return d + [0] * (len(case['script']) - len(d))
+
+
 def run_impl(case):
+    import hashlib, heapq
     from ndn import encoding as enc
     from ndn.encoding.ndnlp_v2 import make_network_nack
     from ndn.app_support.segment_fetcher import segment_fetcher
     from ndn.security import DigestSha256Signer
     Component, Name = enc.Component, enc.Name
     prefix = Name.from_str(PREFIX)
+    pfx = [bytes(c) for c in prefix]
     ver = Component.from_version(1)
     obj = case['obj']
     fbis = obj.get('fbi', [])
-    script = list(case['script'])
+    script = list(zip(case['script'], _delays(case)))
     T = case['timeout_ms']
-    log, yielded, box, reject, namelog = [], [], {}, [], []
+    log, yielded, box, namelog = [], [], {}, []
+    sent, events, flight = [], [], []        # Interests with their times; everything in order; packets on their way
     signer = DigestSha256Signer()
 
     def content_of(i, normal):
@@ -239,9 +361,21 @@ def run_impl(case):
         return enc.make_data(nm, enc.MetaInfo(), content_of(0, b'c%d' % UNSEG_ID), signer=signer)
 
     async def validator(name, sig, *a):
-        return not (reject and reject.pop())
+        # the verdict is a function of the packet: its DigestSha256 signature is checked (an invalid Data is one whose
+        # signature value was damaged on the way)
+        h = hashlib.sha256()
+        for blk in sig.signature_covered_part:
+            h.update(blk)
+        return bytes(sig.signature_value_buf) == h.digest()
 
     with AppRig('v1') as rig:
+        t0 = rig.loop.time()
+        _settle = rig.loop.settle
+        rig.loop.settle = lambda limit=5000: _settle(limit)      # a fetcher that spins at one instant is a hang, soon
+
+        def now_ms():
+            return int(round((rig.loop.time() - t0) * 1000))
+
         form = case.get('name_form', 'list')
         given = PREFIX if form == 'str' else Name.to_bytes(PREFIX) if form == 'wire' else Name.from_str(PREFIX)
         gen = segment_fetcher(rig.app, given, timeout=T, retry_times=case['retry'],
@@ -255,39 +389,39 @@ def run_impl(case):
             except Exception as e:     # noqa
                 box['end'] = type(e).__name__
                 box['reason'] = getattr(e, 'reason', None)
-        task = rig.loop.run_now(consume())
-        seen, steps, idle, flags = 0, 0, 0, []
-        while not task.done():
-            steps += 1
-            if steps > (len(fbis) + 3) * (max(1, case['retry']) + 3) * 3 + 30 + 2 * len(case['script']) or idle > 3:
-                box['end'] = 'HANG'
-                break
-            new = rig.face.sent[seen:]
-            seen = len(rig.face.sent)
-            if not new:
-                idle += 1
-                rig.loop.advance(rig.loop.time() + T / 1000.0 + 0.001)
-                continue
-            idle = 0
+            box['end_ms'] = now_ms()
+        task = rig.loop.create_task(consume())
+        state = {'seen': 0}
+        flags = []
+
+        def producer():
+            """look at every Interest the application has written since the last call and put the answer the script
+            gives on its way"""
+            new = rig.face.sent[state['seen']:]
+            state['seen'] = len(rig.face.sent)
             for w in new:
                 try:
                     name, param, _, _ = enc.parse_interest(w)
                 except Exception:      # noqa
                     log.append(['?', 'x'])
+                    events.append({'k': 'I', 't': now_ms(), 'req': '?'})
                     continue
                 name = [bytes(c) for c in name]
-                if name == [bytes(c) for c in prefix]:
+                seg = None
+                if name == pfx:
                     req, pkt = 'D', None
                     if obj['kind'] == 'unseg':
                         pkt = unseg_packet
                     elif case['disc'] < len(fbis):
+                        seg = case['disc']
                         pkt = lambda: seg_packet(case['disc'])
                     if not param.can_be_prefix:
                         flags.append('discovery-without-CanBePrefix')
-                elif (len(name) == len(prefix) + 2 and name[:-1] == [bytes(c) for c in prefix] + [bytes(ver)]
+                elif (len(name) == len(prefix) + 2 and name[:-1] == pfx + [bytes(ver)]
                       and Component.get_type(name[-1]) == Component.TYPE_SEGMENT):
                     i = Component.to_number(name[-1])
                     req = 'S%d' % i
+                    seg = i
                     pkt = (lambda i=i: seg_packet(i)) if (obj['kind'] == 'seg' and i < len(fbis)) else None
                     if param.can_be_prefix:
                         flags.append('segment-Interest-with-CanBePrefix')
@@ -297,18 +431,57 @@ def run_impl(case):
                     flags.append('lifetime')
                 if bool(param.must_be_fresh) != case['fresh']:
                     flags.append('must_be_fresh')
-                o = script.pop(0) if script else 'd'
-                namelog.append([_name_hex(name), 'n' if o == 'n' else 't' if (pkt is None or o == 't') else o])
-                if o == 'n':
-                    log.append([req, 'n'])
-                    rig.deliver(bytes(make_network_nack(w, case.get('nack', 150))))
-                elif pkt is None or o == 't':
-                    log.append([req, 't'])
+                o, dly = script.pop(0) if script else ('d', 0)
+                eff = 'n' if o == 'n' else 't' if (pkt is None or o == 't') else o
+                namelog.append([_name_hex(name), eff])
+                log.append([req, eff])
+                k = len(sent)
+                sent.append([req, now_ms()])
+                events.append({'k': 'I', 't': now_ms(), 'req': req})
+                if eff == 'n':
+                    wire = bytes(make_network_nack(w, case.get('nack', 150)))
+                elif eff == 't':
+                    continue
                 else:
-                    log.append([req, o])
-                    if o == 'v':
-                        reject.append(True)
-                    rig.deliver(bytes(pkt()))
+                    wire = bytearray(pkt())
+                    if eff == 'v':
+                        wire[-1] ^= 1          # the last byte of the packet is the last byte of the signature value
+                    wire = bytes(wire)
+                # ordered by arrival time, first sent first among equals
+                heapq.heappush(flight, (now_ms() + dly, len(events), wire,
+                                        {'k': 'P', 'kind': eff, 'for': k, 'req': req, 'seg': None if eff == 'n' else seg,
+                                         'unseg': eff != 'n' and obj['kind'] == 'unseg'}))
+
+        def hand_over():
+            ta, _, wire, info = heapq.heappop(flight)
+            rig.loop.advance(t0 + ta / 1000.0)
+            events.append(dict(info, t=ta, live=not task.done()))
+            rig.deliver(wire)
+
+        try:
+            rig.loop.settle()
+            steps = 0
+            limit = (len(fbis) + 3) * (max(1, case['retry']) + 3) * 4 + 40 + 4 * len(case['script'])
+            producer()
+            while not task.done():
+                steps += 1
+                w = rig.loop._next_timer()
+                w_ms = None if w is None else int(round((w - t0) * 1000))
+                if steps > limit or (w is None and not flight):
+                    box['end'] = 'HANG'
+                    break
+                if flight and (w_ms is None or flight[0][0] < w_ms):
+                    hand_over()              # a packet that arrives before the next timer is due
+                else:
+                    rig.loop.advance(w)      # timers first when both fall on the same instant
+                producer()
+            # what is still on its way arrives when nobody waits for it any more: it has to be dropped quietly
+            for _ in range(min(len(flight), 64)):
+                hand_over()
+        except RuntimeError as e:
+            if 'did not quiesce' not in str(e):
+                raise
+            box['end'] = 'HANG'      # the fetcher spins without the clock moving
         ids = []
         for c in yielded:
             m = re.fullmatch(rb'c(\d+)', c or b'')
@@ -318,35 +491,66 @@ def run_impl(case):
                 'nack_reason': box.get('reason') if box.get('end') == 'InterestNack' else None,
                 'namelog': namelog, 'prefix_hex': _name_hex(prefix),
                 'base_hex': _name_hex(unseg_names[obj['name']] if obj['kind'] == 'unseg' else prefix + [ver]),
+                'sent': sent, 'events': events, 'end_ms': box.get('end_ms'), 'late': _is_late(case),
                 'loop_errors': [e for e in rig.loop.errors]}
 
 
+def _is_late(case):
+    """does some answer travel for as long as the lifetime or longer (then the untimed models do not apply)?"""
+    return case['timeout_ms'] == 0 or any(o != 't' and d >= case['timeout_ms'] for o, d in zip(case['script'], _delays(case)))
+
+
 # ------------------------------------------------------------------------------------- model
+def _obj_tok(o):
+    if o['kind'] == 'unseg':
+        return 'u'
+    return 's:' + (','.join('~' if x is None else str(x) for x in o['fbi']) if o['fbi'] else '.')
+
+
+def _timed_args(case):
+    ts = ','.join(o + ('' if o == 't' else str(d)) for o, d in zip(case['script'], _delays(case))) or '.'
+    return f"{_obj_tok(case['obj'])} {case['disc']} {case['retry']} {case['timeout_ms']} {case.get('nack', 150)} {ts}"
+
+
 def model_line(case, impl):
-    o = case['obj']
     if _oracle_only(case):
         return None         # empty / absent Content and FinalBlockId of another type are outside the model's protocol
-    if o['kind'] == 'unseg':
-        obj = 'u'
-    else:
-        obj = 's:' + (','.join('~' if x is None else str(x) for x in o['fbi']) if o['fbi'] else '.')
-    # two more arguments: the names-level model runs too and reports every Interest name it builds
-    return f"C19 {obj} {case['disc']} {case['retry']} {case['script'] or '.'} {impl['prefix_hex']} {impl['base_hex']}"
+    if impl['late']:
+        # some answer travels for at least a lifetime: only the timed model (the generator over the pending-Interest table)
+        return 'C19 T ' + _timed_args(case)
+    # every answer arrives within the lifetime of its own Interest: the untimed number-level and names-level models apply
+    # as well (two more arguments: the names-level model runs too and reports every Interest name it builds), and the
+    # timed model has to agree with them (refinement theorem `timed_refines_untimed`, sampled here)
+    return (f"C19 B {_obj_tok(case['obj'])} {case['disc']} {case['retry']} {case['script'] or '.'} "
+            f"{impl['prefix_hex']} {impl['base_hex']} | {_timed_args(case)}")
+
+
+def _timed_obs(t):
+    assert t[0] == 'ok' and len(t) == 5, t
+    y = [] if t[1] == '.' else [int(x) for x in t[1].split(',')]
+    sent = [] if t[2] == '.' else [[e.split('@')[0], int(e.split('@')[1])] for e in t[2].split(',')]
+    return [y, sent, t[3]]
 
 
 def model_obs(answer, case, impl):
-    t = answer.split()
+    if impl['late']:
+        return _timed_obs(answer.split())
+    a, b = answer.split(' | ')
+    t = a.split()
     assert t[0] == 'ok' and len(t) == 7, answer
     y = [] if t[1] == '.' else [int(x) for x in t[1].split(',')]
     lg = [] if t[2] == '.' else [[e[:-1], e[-1]] for e in t[2].split(',')]
     yb = [] if t[4] == '.' else [int(x) for x in t[4].split(',')]
     nl = [] if t[6] == '.' else [e.rsplit(':', 1) for e in t[6].split(';')]
-    return [y, lg, t[3], yb, t[5], nl]
+    return [y, lg, t[3], yb, t[5], nl] + _timed_obs(b.split())
 
 
 def impl_obs(impl):
+    timed = [impl['yielded'], impl['sent'], impl['end']]
+    if impl['late']:
+        return timed
     # twice: against the number-level model and against the names-level model (which also gives the Interest names)
-    return [impl['yielded'], impl['log'], impl['end'], impl['yielded'], impl['end'], impl['namelog']]
+    return [impl['yielded'], impl['log'], impl['end'], impl['yielded'], impl['end'], impl['namelog']] + timed
 
 
 # ------------------------------------------------------------------------------------- oracle
@@ -365,18 +569,55 @@ def _expected(case):
     return ids, False
 
 
+def _fates(case, impl):
+    """What became of every Interest, from what the simulated network did (NDN semantics, not the code): an Interest is
+    answered by the first packet that reaches the consumer while it is outstanding and before its lifetime is over - a Data
+    whose name it matches (any Data of the object for the CanBePrefix discovery Interest, the Data of segment i for the
+    Interest for segment i) or a Nack for its name, whichever Interest that packet was sent in answer to - and expires
+    otherwise.  Returns ([[request, d | v | n | t]], text of a sequencing fault or None)."""
+    T = case['timeout_ms']
+    ints, fate, cur = [], [], None
+    for ev in impl['events']:
+        if ev['k'] == 'I':
+            if cur is not None and fate[cur] is None:
+                if ev['t'] < ints[cur][1] + T:
+                    return None, (f"{ev['req']} was sent at {ev['t']} ms while the Interest for {ints[cur][0]} sent at "
+                                  f"{ints[cur][1]} ms (lifetime {T}) had neither been answered nor timed out")
+                fate[cur] = 't'
+            cur = len(ints)
+            ints.append([ev['req'], ev['t']])
+            fate.append(None)
+        elif ev.get('live') and cur is not None and fate[cur] is None and ev['t'] < ints[cur][1] + T:
+            req = ints[cur][0]
+            if ev['kind'] == 'n':
+                hit = ev['req'] == req
+            else:
+                hit = req == 'D' or (ev['seg'] is not None and not ev['unseg'] and req == 'S%d' % ev['seg'])
+            if hit:
+                fate[cur] = ev['kind']
+    if cur is not None and fate[cur] is None:
+        if impl['end'] != 'HANG' and impl.get('end_ms') is not None and impl['end_ms'] < ints[cur][1] + T:
+            return None, (f"the fetch ended ({impl['end']}) at {impl['end_ms']} ms while the Interest for {ints[cur][0]} sent at "
+                          f"{ints[cur][1]} ms (lifetime {T}) had neither been answered nor timed out")
+        fate[cur] = 't'
+    return [[r, f] for (r, _), f in zip(ints, fate)], None
+
+
 def oracle(case, impl):
     a = max(1, case['retry'])
     exp, has_final = _expected(case)
-    y, log, end = impl['yielded'], impl['log'], impl['end']
+    y, end = impl['yielded'], impl['end']
     if impl['loop_errors']:
         return f'background task error: {impl["loop_errors"][:2]}'
     if end == 'HANG':
         return 'fetch neither finished nor failed'
-    if any(r.startswith('?') for r, _ in log):
-        return f'unexpected Interest {[r for r, _ in log if r.startswith("?")][:1]}'
+    if any(r.startswith('?') for r, _ in impl['log']):
+        return f'unexpected Interest {[r for r, _ in impl["log"] if r.startswith("?")][:1]}'
     if y != exp[:len(y)]:
         return f'yielded {y} is not a prefix of segments {exp} in order, each once'
+    log, fault = _fates(case, impl)
+    if fault:
+        return fault
     # Nack / validation failure propagate
     for k, (r, o) in enumerate(log):
         if o in 'nv':
@@ -390,21 +631,30 @@ def oracle(case, impl):
             return None
     if end in ('InterestNack', 'ValidationFailure'):
         return f'fetch ended with {end} although no Nack / invalid Data was delivered'
-    # timeouts
-    lost = {}
-    for r, o in log:
-        if o == 't':
-            lost[r] = lost.get(r, 0) + 1
-    over = [r for r, n in lost.items() if n > a]
-    if over:
-        return f'{over[0]} was requested again after {a} timeouts (limit {case["retry"]})'
-    exhausted = [r for r, n in lost.items() if n >= a]
+    # timeouts: a request is sent again only after it timed out, at most `a` times in a row
+    run, worst = 0, {}
+    for k, (r, o) in enumerate(log):
+        if k and log[k - 1][0] == r:
+            if log[k - 1][1] != 't':
+                return f'{r} was requested again although it had been answered'
+        else:
+            run = 0
+            if any(r == r2 for r2, _ in log[:k]):
+                return f'{r} was requested again after the fetch had moved on'
+        run = run + 1 if o == 't' else 0
+        worst[r] = max(worst.get(r, 0), run)
+        if run > a:
+            return f'{r} was requested again after {a} timeouts (limit {case["retry"]})'
+        if run == a and k != len(log) - 1:
+            return f'{r} was requested again after {a} timeouts (limit {case["retry"]})' if log[k + 1][0] == r else \
+                f'{r} timed out {a} times but the fetch went on'
+    exhausted = [r for r, n in worst.items() if n >= a]
     if exhausted:
         if end != 'InterestTimeout':
             return f'{exhausted[0]} timed out {a} times but the fetch ended with {end}'
         return None
     if end == 'InterestTimeout':
-        return f'fetch failed with a timeout although no Interest timed out {a} times: {lost}'
+        return f'fetch failed with a timeout although no Interest timed out {a} times in a row: {worst}'
     if end != 'done':
         return f'fetch ended with {end}'
     if y != exp:
@@ -413,7 +663,7 @@ def oracle(case, impl):
 
 
 def nontrivial(case, impl):
-    return len(impl['log']) >= 2 and (bool(impl['yielded']) or any(o == 't' for _, o in impl['log']))
+    return len(impl['log']) >= 2 and (bool(impl['yielded']) or any(o == 't' for _, o in impl['log']) or impl['late'])
 
 
 def tags(case, impl):
@@ -434,6 +684,21 @@ def tags(case, impl):
         t.append('max-loss:' + ('limit' if m == a else 'limit-1' if m == a - 1 else 'below'))
     for f in impl['flags']:
         t.append('flag:' + f)
+    T = case['timeout_ms']
+    for o2, d in zip(case['script'], _delays(case)):
+        if o2 != 't' and d:
+            t.append('delay:' + ('below' if d < T else 'at' if d == T else 'above'))
+    t.append('late-answers:' + str(impl['late']))
+    # a packet sent in answer to one Interest that decided another one
+    fates, _ = _fates(case, impl)
+    if fates is not None:
+        live = [ev for ev in impl['events'] if ev['k'] == 'P' and ev.get('live')]
+        if any(ev['t'] >= impl['sent'][ev['for']][1] + T for ev in live):
+            t.append('answer-arrived-after-its-deadline')
+        if any(ev['k'] == 'P' and not ev.get('live') for ev in impl['events']):
+            t.append('answer-arrived-after-the-end')
+        if any(a2 != b2 for (_, a2), (_, b2) in zip(fates, impl['log'])):
+            t.append('fate-differs-from-script')
     return t
 
 
@@ -450,11 +715,20 @@ LEVEL_TEXT = ('Lean 4 theorems over a hand-written model of segment_fetcher (inn
               'failure end the fetch at once, request bounds, termination. Names-level half, by composition with the proved '
               'name model (C09): Component.from_segment / get_type / to_number round trip and injectivity for every n < 2^64, '
               'FinalBlockId byte comparison iff equal numbers, the fetcher working on names proved equal Interest by Interest to '
-              'the number-level model, and the main theorem restated with the Interest names actually sent. The model is tied to the code on every run by '
+              'the number-level model, and the main theorem restated with the Interest names actually sent. Timed half: the same '
+              'generator run over the C03 model of the legacy pending-Interest table with the lifetime the fetcher passes and a '
+              'producer whose answers take any scripted time: what one awaitable comes to (first packet in flight that arrives '
+              'before the deadline and matches - whichever Interest it answers; later ones stay in flight for the retry), Data is '
+              'always genuine, in-order/once/never-beyond-final for every delay pattern with completeness iff normal end, timeout '
+              'iff a request has `attempts` awaitables time out in a row, Nack/invalid propagate (also late ones), request bound, '
+              'termination, refinement to the untimed model for answers within the lifetime, table empty and late answers '
+              'dropped at the end (by C03). The model is tied to the code on every run by '
               'differential execution against the real async generator over the real legacy NDNApp on a virtual-time loop '
               'with a simulated producer, plus the property oracle evaluated on the implementation.')
-LEVEL_NOTE = ('Proof is about the model; model=code is sampled. Responses are immediate or lost (no late Data); NDNApp is '
-              'abstracted to four outcomes per Interest. Every Interest name seen by the simulated producer is compared byte '
-              'for byte with the name the names-level model builds.')
+LEVEL_NOTE = ('Proof is about the model; model=code is sampled. Timed half: the generator over the C03 pending-Interest model '
+              'with scripted answer delays (any delay: a late answer satisfies the retry of the same name or is dropped), '
+              'every C19 statement proved for every delay pattern, and the untimed model proved to be the special case of '
+              'answers within the lifetime. Every Interest name seen by the simulated producer is compared byte for byte with '
+              'the name the names-level model builds, every send time with the timed model.')
 TECHNIQUE = 'Lean 4 proof (induction on fuel/segment number with script invariants) + model/implementation correspondence check'
 DESIGN_REF = 'DESIGN.md section 7, C19'
